@@ -471,7 +471,14 @@ func runSolver(sp solverSpec, file string, secs int) (status, out string, dur fl
 	_ = cmd.Run()
 	dur = time.Since(t0).Seconds()
 	out = buf.String()
-	first := strings.TrimSpace(strings.SplitN(out, "\n", 2)[0])
+	first := ""
+	for _, l := range strings.Split(out, "\n") {
+		// z3 prints pattern warnings before the answer (a pattern over a merged, ite-valued slice)
+		if l = strings.TrimSpace(l); l != "" && !strings.HasPrefix(l, "WARNING") {
+			first = l
+			break
+		}
+	}
 	switch first {
 	case "unsat", "sat", "unknown":
 		status = first
